@@ -66,7 +66,7 @@ def payload(draw, max_sigs=12, allow_big=False, min_sigs=1, allow_medium=False, 
 	comp = draw(st.sampled_from([None, 'gzip', 'lzf', None, 'gzip']))
 	copts = draw(st.integers(0, 9)) if comp == 'gzip' and draw(st.booleans()) else None
 	return {'k': k, 'prefix': prefix, 'sigs': sigs, 'container': container, 'idkind': idkind, 'ids': ids, 'meta': meta,
-	        'compression': comp, 'compression_opts': copts, 'dtype': dtype}
+	        'compression': comp, 'compression_opts': copts, 'dtype': dtype, 'ids_as': draw(st.sampled_from(['list', 'tuple', 'object', 'U']))}
 
 
 def build_arrays(np, p):
@@ -116,7 +116,10 @@ def build(np, p):
 	if not p['container'].startswith('annot'):
 		return base, spec, arrays, ('int', list(range(n))), default_meta
 	if p['idkind'] == 'str':
-		ids_arg = list(p['ids'])
+		how = p.get('ids_as', 'list')
+		ids_arg = list(p['ids']) if how == 'list' else tuple(p['ids']) if how == 'tuple' else np.array(p['ids'], dtype=object) if how == 'object' else np.array(p['ids'])
+		if how == 'U' and (ids_arg.dtype.kind != 'U' or [str(x) for x in ids_arg] != list(p['ids'])):
+			ids_arg = list(p['ids'])     # NumPy 'U' arrays drop trailing NULs / cannot hold everything: fall back
 		exp_ids = ('str', list(p['ids']))
 	elif p['idkind'] == 'i8':
 		ids_arg = np.array(p['ids'], dtype='i8')
